@@ -1,7 +1,9 @@
 """C18 - a statement too big for the lookup tables is refused, not corrupted."""
 from __future__ import annotations
 
-from .. import gen, pj, refdec, wire
+import os
+
+from .. import env, gen, pj, refdec, wire
 from .. import terms as T
 
 ID = "C18"
@@ -221,7 +223,54 @@ def judge(cfg, stmts):
     return None, "wrote-correctly"
 
 
+def optimized_interpreter_cases(ctx):
+    """The same oracle in an interpreter started with -O (assert statements compiled away): refusing an oversized
+    statement must not hinge on an assert."""
+    import json
+    import subprocess
+    import sys
+    e = dict(os.environ, PYTHONPATH=env.VERIF_DIR, PYTHONDONTWRITEBYTECODE="1", RV_NO_COVERAGE="1")
+    try:
+        r = subprocess.run([sys.executable, "-O", "-m", "rv.props.c18", "child", str(ctx.seed), "400"], cwd=env.VERIF_DIR, env=e,
+                           capture_output=True, text=True, timeout=300)
+        out = json.loads(r.stdout.strip().splitlines()[-1])
+    except Exception as ex:  # noqa: BLE001
+        ctx.inconc(f"python -O child failed: {type(ex).__name__}: {ex}")
+        return
+    ctx.observe("cases-under-python-O", out["cases"])
+    for k, v in out["outcomes"].items():
+        ctx.observe(f"python-O:outcome:{k}", v)
+    for w in out["violations"]:
+        w["interpreter"] = "python -O"
+        w["summary"] = "under python -O: " + w["summary"]
+        ctx.violation(w)
+    ctx.case(("python-O", ctx.seed), out["cases"] > 0, sample={"kind": "python -O child", "cases": out["cases"], "outcomes": out["outcomes"]})
+
+
+def child_main(seed: int, n: int):
+    import json
+    from collections import Counter
+    outcomes = Counter()
+    violations = []
+    cases = 0
+    for i in range(n):
+        rng = gen.rng_for("C18", seed, "python-O", i)
+        cfg, stmts, table, overflow, position = make_case(rng)
+        if overflow < 1:
+            continue
+        w, outcome = judge(cfg, stmts)
+        cases += 1
+        outcomes[outcome] += 1
+        if w is not None and len(violations) < 5:
+            w.update({"cfg": cfg, "stmts": T.to_json(stmts), "table": table, "overflow": overflow, "position": position})
+            w.pop("bytes", None)
+            violations.append(w)
+    print(json.dumps({"cases": cases, "outcomes": dict(outcomes), "violations": violations, "asserts_enabled": __debug__}))
+
+
 def run_shard(ctx):
+    if ctx.shard == 0:
+        optimized_interpreter_cases(ctx)
     i = 0
     while not ctx.out_of_time():
         rng = ctx.rng(i)
@@ -247,6 +296,12 @@ def replay(w: dict):
     cfg = w["cfg"]
     cfg["preset"] = tuple(cfg["preset"])
     return judge(cfg, list(T.from_json(w["stmts"])))[0]
+
+
+if __name__ == "__main__":
+    import sys as _sys
+    if len(_sys.argv) >= 4 and _sys.argv[1] == "child":
+        child_main(int(_sys.argv[2]), int(_sys.argv[3]))
 
 
 def classify(w: dict):
